@@ -2,33 +2,33 @@ package vc
 
 import (
 	"fmt"
-	"os"
 	"go/ast"
 	"go/constant"
 	"go/parser"
 	"go/token"
 	"go/types"
 	"math/big"
+	"os"
 	"strconv"
 	"strings"
 )
 
 // Env is the evaluation environment of a contract expression.
 type Env struct {
-	fc       *fnCtx
-	st       *State // state in which heap reads happen
-	old      *State // state for old(...)
-	pkg      *types.Package
-	vars     map[string]Val
-	results  []Val
-	loopVars map[string]Val
-	pureCtx  bool
-	unfold   int
-	useLocals bool     // identifiers may refer to source-level locals (loop invariants)
+	fc         *fnCtx
+	st         *State // state in which heap reads happen
+	old        *State // state for old(...)
+	pkg        *types.Package
+	vars       map[string]Val
+	results    []Val
+	loopVars   map[string]Val
+	pureCtx    bool
+	unfold     int
+	useLocals  bool // identifiers may refer to source-level locals (loop invariants)
 	macroDepth int
-	quantFacts bool    // inside a quantifier body: side facts are collected for the enclosing quantifier
-	assuming  bool     // the clause is being assumed (side facts are conjoined) rather than proved (side facts are hypotheses)
-	factsP   *[]string // side facts (allocatedness of values read from the heap), assumed with the clause
+	quantFacts bool      // inside a quantifier body: side facts are collected for the enclosing quantifier
+	assuming   bool      // the clause is being assumed (side facts are conjoined) rather than proved (side facts are hypotheses)
+	factsP     *[]string // side facts (allocatedness of values read from the heap), assumed with the clause
 }
 
 func (fc *fnCtx) envAt(st, old *State) *Env {
@@ -210,15 +210,17 @@ func (env *Env) eval(e ast.Expr) Val {
 					*env.factsP = append(*env.factsP, App("<", App("ageR", App("sarr", v.T)), env.st.alloc))
 				}
 			}
-			if inv := env.fc.typeInvTry(v.Typ, v.T); inv != "true" && inv != "" && env.fc.inQuant > 0 {
+			// the invariant holds for values of reachable states only: it travels with the clause
+			// (assumed on the reach chain), never as an unconditional background fact
+			if inv := env.fc.typeInvTry(v.Typ, v.T); inv != "true" && inv != "" {
 				if env.factsP != nil {
 					*env.factsP = append(*env.factsP, inv)
-				}
-			} else if inv != "true" && inv != "" {
-				key := "inv:" + v.T
-				if !env.fc.pureDone[key] {
-					env.fc.pureDone[key] = true
-					env.fc.sc.Axiom(inv)
+				} else if env.st != nil && env.fc.inQuant == 0 {
+					key := "inv:" + env.st.reach + ":" + v.T
+					if !env.fc.pureDone[key] {
+						env.fc.pureDone[key] = true
+						env.fc.sc.Axiom(Imp(env.st.reach, inv))
+					}
 				}
 			}
 		}
@@ -1647,7 +1649,8 @@ func (env *Env) applySpec(sp *SpecFn, argExprs []ast.Expr) Val {
 }
 
 // readHeaps resolves an entry of a "reads" list to heap names:
-//   A!T (elements of []T), H!S!f (field f of struct S), C!T (cells of T), M!K!V (maps), G!name (ghost maps)
+//
+//	A!T (elements of []T), H!S!f (field f of struct S), C!T (cells of T), M!K!V (maps), G!name (ghost maps)
 func (env *Env) readHeaps(r string) []string {
 	fc := env.fc
 	parts := strings.Split(r, "!")
